@@ -1,3 +1,4 @@
+\* prints Inject(doc) for every document of the batch (TRACE_FILE in the environment); UNIVERSE is unused here
 SPECIFICATION InjectSpec
 CONSTANTS
   UNIVERSE = "quick"
